@@ -882,7 +882,7 @@ fn self_load(w: &Written, fault_free: bool, problems: &mut Problems) {
             return;
         }
     };
-    query_every_glyph(&mut font, w.glyphs, w.kind, fault_free, w.kind == WrittenKind::Instance, w.source_ok.as_deref(), problems);
+    query_every_glyph(&mut font, w.glyphs, w.kind, fault_free, w.kind == WrittenKind::Instance, w.source_ok.as_deref(), w.source_advance.as_deref(), problems);
 }
 
 fn query_every_glyph<P: FontTableProvider + allsorts::tables::SfntVersion>(
@@ -892,6 +892,7 @@ fn query_every_glyph<P: FontTableProvider + allsorts::tables::SfntVersion>(
     fault_free: bool,
     check_static: bool,
     source_ok: Option<&[bool]>,
+    source_advance: Option<&[bool]>,
     problems: &mut Problems,
 ) {
     let mut bad = |name: &str, msg: String| problems.push((name.to_string(), msg));
@@ -910,8 +911,11 @@ fn query_every_glyph<P: FontTableProvider + allsorts::tables::SfntVersion>(
     let cap = n.min(3000);
     for g in 0..cap {
         if font.horizontal_advance(g).is_none() {
-            bad("self-load-advance", format!("glyph {} of {} has no advance", g, n));
-            break;
+            // for a damaged source only when the source itself gave an advance for that glyph
+            if fault_free || source_advance.and_then(|v| v.get(usize::from(g))) == Some(&true) {
+                bad("self-load-advance", format!("glyph {} of {} has no advance", g, n));
+                break;
+            }
         }
     }
     let _ = font.glyph_names(&(0..cap.min(300)).collect::<Vec<u16>>());
@@ -1038,7 +1042,7 @@ pub fn self_load_provider<P: FontTableProvider + allsorts::tables::SfntVersion>(
             return;
         }
     };
-    query_every_glyph(&mut font, None, WrittenKind::Instance, true, false, None, problems);
+    query_every_glyph(&mut font, None, WrittenKind::Instance, true, false, None, None, problems);
 }
 
 /// `source_loadable`: `Font::new` succeeds on the source provider. The self-load half is a
